@@ -47,6 +47,30 @@ def run(ctx):
     cfg = fw.write_cfg(ctx.path("MC_IntAddAlg.cfg"), invariants=["UnsignedOK", "SignedOK"], constants={"W": 2, "MaxV": maxv})
     ctx.mc("mc-addalg", "C01", "IntAddAlg.tla", cfg)
     ctx.scope.update({"IntAddAlg": {"W": 2, "MaxV": maxv}})
+    # algorithm layer: mul/{mod,simple,karatsuba,toom_3,helpers}.rs and sqr/simple.rs at word level; the thresholds are
+    # scaled down so that every algorithm, the chunk loop and the recursion between them is reached with few words
+    base = {"TS": 2, "TK": 15, "ChunkLen": 3, "SqrSimple": 3}
+    mulcfgs = [("small", dict(base, W=2, ExhBits=8, Seeds="{1}", Kinds='{"zero", "max", "rnd"}',
+                              Shapes="<- " + ctx.pick("ShapesSmallQuick", "ShapesSmall"))),
+               ("kara", dict(base, W=2, ExhBits=0, Seeds=ctx.pick("{1}", "{1, 2}"),
+                             Kinds=ctx.pick('{"zero", "max", "rnd"}', '{"zero", "max", "rnd", "one", "top"}'),
+                             Shapes="<- " + ctx.pick("ShapesKaraQuick", "ShapesKara"))),
+               ("toom", dict(base, W=4, ExhBits=0, Seeds="{1}", Kinds='{"zero", "max", "rnd"}',
+                             Shapes="<- " + ctx.pick("ShapesToomQuick", "ShapesToom")))]
+    if ctx.tier == "thorough":
+        mulcfgs.append(("toomchunk", dict(base, W=4, ExhBits=0, Seeds="{1}", Kinds='{"zero", "max", "rnd"}', Shapes="<- ShapesToomChunk")))
+    for name, consts in mulcfgs:
+        cfg = fw.write_cfg(ctx.path("MC_IntMulAlg_%s.cfg" % name), invariants=["AddSignedMulOK", "MultiplyOK", "SqrOK", "RefOK"], constants=consts)
+        ctx.mc("mc-mulalg-" + name, "C01", "MC_IntMulAlg.tla", cfg, timeout=3000)
+    # scratch-memory accounting of the same stack, with the thresholds and requirement formulas read from the source
+    sc0 = fw.source_constants()
+    memc = {"TS": sc0["MUL_THRESHOLD_SIMPLE"], "TK": sc0["MUL_THRESHOLD_KARATSUBA"], "SqrSimple": sc0["SQR_MAX_LEN_SIMPLE"],
+            "KaraA": sc0["KARATSUBA_MEM_A"], "KaraB": sc0["KARATSUBA_MEM_B"], "ToomA": sc0["TOOM3_MEM_A"], "ToomB": sc0["TOOM3_MEM_B"],
+            "KaraMin": sc0["KARATSUBA_MIN_LEN"], "ToomMin": sc0["TOOM3_MIN_LEN"], "MaxN": ctx.pick(800, 2500)}
+    cfg = fw.write_cfg(ctx.path("MC_MulMemAlg.cfg"), invariants=["EnoughForMul", "EnoughForSqr", "Monotone", "SplitsOK"], constants=memc)
+    ctx.mc("mc-mulmem", "C01", "MulMemAlg.tla", cfg)
+    ctx.scope.update({"MulMemAlg": memc})
+    ctx.scope.update({"IntMulAlg": {n: {k: v for k, v in c.items()} for n, c in mulcfgs}})
     # spec -> impl: the partition enumerated by TLC
     # the size classes follow the switch points of the code (read from the source, pinned values as fallback)
     sc = fw.source_constants()
